@@ -125,6 +125,13 @@ Glu_alloc(
 	else fsupc = jcol;
 	*prev_next = Glu->map_in_sup[fsupc];
 	Glu->map_in_sup[fsupc] += num;
+#ifdef XIAOYELI_SUPERLU_MT_VERIF
+	/* verification hook: report the new end of the supernode's value block */
+	{
+	    extern void slu_mt_verif_lusup(int_t, int_t, int_t, pxgstrf_shared_t *);
+	    slu_mt_verif_lusup(jcol, fsupc, Glu->map_in_sup[fsupc], pxgstrf_shared);
+	}
+#endif
 
 #if 0
 	{
